@@ -1,0 +1,6 @@
+//go:build verif && amd64 && !noasmtest
+// +build verif,amd64,!noasmtest
+
+package cpu
+
+func cpuArchLevelIsStub() bool { return false }
